@@ -30,6 +30,8 @@ EXPLANATION = (
     "those consumed by the API, the docs generators and the CLI help.  Declined: case folding of fnmatch "
     "per platform."
 )
+TECHNIQUE += '; recognition of precompiled fnmatch.translate patterns'
+EXPLANATION += ' R1 recognises patterns precompiled with re.compile(fnmatch.translate(p)) and requires .match/.fullmatch (translate anchors the end only).'
 TRUSTED = ["CPython ast parser", "pkgutil.iter_modules yields modules in sorted name order", "fnmatch glob semantics (* ? [seq])"]
 
 OPS = ("load_one", "load_many", "dump_one", "dump_many")
